@@ -45,6 +45,19 @@ CHECKS = {
              "centre, ties up, for every rational; binary64 instance swept on all 1/8 multiples |x|<=256). Regenerated code is run "
              "inside Coq against the implementation; dims/bounds/separability are checked by a property oracle over WCS families.",
         ref="5 C13", technique="Coq proof over model regenerated from source by translator + vm_compute correspondence"),
+    "C17": dict(
+        text="Theorem ok_sound over an effect-skeleton language with an adversarial oracle (every branch, loop count and raising call): "
+             "if every write to a global kind (numpy error state / warnings filters / print options) is under a context manager of that "
+             "kind, every global is restored on every exit path. The skeleton of every function of wcs.py/wcstools.py is REGENERATED from "
+             "source each run (intra-package calls inlined) and Coq computes the premise and instantiates the theorem for each public "
+             "entry point. Fault enumeration on the implementation: a counting transform raises at its k-th evaluation for every k.",
+        ref="5 C17", technique="Coq proof (induction on effect skeletons regenerated from source) + exhaustive crash-index fault enumeration"),
+    "C08": dict(
+        text="Theorem history_independent: for ANY interleaving of queries with cache-resetting edits, each answer equals that of a freshly "
+             "built twin, and queries keep the pipeline. Its premises are Coq-computed obligations on the attribute write table REGENERATED "
+             "from wcs.py+api.py each run (every edit transitively assigns _approx_inverse=None; queries assign nothing but the cache). "
+             "Twin differential on the implementation incl. all [query; edit; query] pairs.",
+        ref="5 C08", technique="Coq proof (invariant over histories) with premises computed on a source-derived write table + twin differential"),
 }
 
 NOT_YET = "check not built yet in this session (work in progress; see DESIGN.md section 10 build order)"
